@@ -30,6 +30,10 @@ pub struct Case {
     /// parse_parts modes: read the rest through reader.into_payload() instead of reader.into_inner()
     #[serde(default)]
     pub parts_into_payload: bool,
+    /// parse() modes: read the payload through the *other* interface (blocking parse -> AsyncRead, async parse ->
+    /// blocking Read over the real block_on bridge); the schedule then only uses wakes that are legal under block_on
+    #[serde(default)]
+    pub cross_payload: bool,
 }
 
 #[derive(Clone, Copy)]
@@ -73,6 +77,7 @@ impl Prop for C06 {
         };
         let payload = gen_payload(rng, max_payload);
         let mode = *rng.pick(&Mode::ALL);
+        let cross_payload = matches!(mode, Mode::SyncParse | Mode::AsyncParse) && rng.chance(1, 3);
         // the schedule is generated against the reference encoding's token map; for model streams the order of
         // attributes (not their total length) depends on hash keys, so offsets stay meaningful as positions
         // the token map steers the "token_edges" schedule style; it is only taken from reference-encoded streams
@@ -89,8 +94,8 @@ impl Prop for C06 {
             is_async: mode.is_async(),
             eintr: rng.chance(3, 4),
             pend: rng.chance(3, 4),
-            after: true,
-            cross: false,
+            after: !cross_payload,
+            cross: cross_payload,
             max_events: 4096,
         };
         let (style, trace) = gen_trace(rng, head_len, total, &toks, &opts);
@@ -106,6 +111,7 @@ impl Prop for C06 {
             boundary_fault,
             payload_buf_sizes,
             parts_into_payload: rng.chance(1, 2),
+            cross_payload,
         }
     }
 
@@ -143,7 +149,12 @@ impl Prop for C06 {
         src.set_record(record);
         src.set_track(true);
         let max_polls = case.spec.trace.len() as u64 * 3 + data.len() as u64 * 2 + 64;
+        crate::drive::CROSS_PAYLOAD.with(|c| c.set(case.cross_payload));
         let pr = run_parser_opt(&core, &src, case.mode, max_polls, true, &case.payload_buf_sizes, data.len() + 16, case.parts_into_payload);
+        crate::drive::CROSS_PAYLOAD.with(|c| c.set(false));
+        if case.cross_payload {
+            rep.count("payload_read_through_the_other_interface", 1);
+        }
         if case.parts_into_payload && matches!(case.mode, Mode::SyncParts | Mode::AsyncParts) {
             rep.count("parts_rest_read_through_into_payload", 1);
         }
@@ -259,6 +270,9 @@ impl Prop for C06 {
         }
         if c.boundary_fault {
             out.push(Case { boundary_fault: false, ..c.clone() });
+        }
+        if c.cross_payload && !c.spec.trace.iter().any(|e| matches!(e, crate::wire::Ev::Pend { .. })) {
+            out.push(Case { cross_payload: false, ..c.clone() });
         }
         out
     }
